@@ -200,6 +200,12 @@ class RefEval:
         if k == 'id':
             if e[1] in self.scopes:
                 return self.scopes[e[1]]
+            if isinstance(self.D, ObjLit):
+                # data given as an object literal (template data): a plain property is read directly, unless a later spread may override it
+                segs = self.D.segs
+                if all(kind == 'props' for kind, _ in segs):
+                    vals = [v for kind, props in segs for (kk, v) in props if kk == e[1]]
+                    return vals[-1] if vals else UNDEFINED
             g = get(it.term(self.D), V.Str(z3.StringVal(e[1])))
             it.get_axioms(g, None, V.Str(z3.StringVal(e[1])))
             return g
